@@ -513,7 +513,10 @@ class ElectionState(_SynchronizedState):
                 if self.state_modes.is_master():
                     return SupvisorsStates.DISTRIBUTION
                 # the Slave waits for the Master to transition
-                if self.state_modes.master_state == SupvisorsStates.DISTRIBUTION:
+                # NOTE: the Master may already be past DISTRIBUTION if the election only took place locally
+                #       (e.g. the Master has been lost and recovered by the local Supvisors instance only)
+                if self.state_modes.master_state in [SupvisorsStates.DISTRIBUTION, SupvisorsStates.OPERATION,
+                                                     SupvisorsStates.CONCILIATION]:
                     return SupvisorsStates.DISTRIBUTION
             # re-evaluate the context to possibly get a more relevant Master
             self.state_modes.select_master()
